@@ -462,8 +462,8 @@ func compareTree(db walletdb.DB, top []byte, m *mb) string {
 // runProg executes one transaction program with a random outcome.
 func (w *world) runProg(r *rand.Rand, log *[]string, stats map[string]int) (key, what string) {
 	work := w.committed.clone()
-	outcome := r.Intn(9)
-	names := []string{"commit", "error", "panic", "readonly", "manual-rollback", "manual-commit", "panic-after-error-free-writes", "batch-commit", "batch-error"}
+	outcome := r.Intn(10)
+	names := []string{"commit", "error", "panic", "readonly", "manual-rollback", "manual-commit", "panic-after-error-free-writes", "batch-commit", "batch-error", "readonly-error"}
 	stats["outcome:"+names[outcome]]++
 	var mismatch string
 	var err error
@@ -474,11 +474,15 @@ func (w *world) runProg(r *rand.Rand, log *[]string, stats map[string]int) (key,
 			}
 		}()
 		switch outcome {
-		case 3:
+		case 3, 9:
 			err = walletdb.View(w.db, func(tx walletdb.ReadTx) error {
 				rb := tx.ReadBucket(w.top)
 				if rw, ok := rb.(walletdb.ReadWriteBucket); ok {
 					mismatch = body(r, rw, work, true, log, stats)
+				}
+				if outcome == 9 {
+					// a read-only transaction that fails: it must end like any other
+					return errBoom
 				}
 				return nil
 			})
@@ -545,6 +549,32 @@ func (w *world) runProg(r *rand.Rand, log *[]string, stats map[string]int) (key,
 		if !errors.Is(err, errBoom) {
 			return "c11:error-not-propagated", fmt.Sprintf("Update returned %v instead of the function's error", err)
 		}
+	case 9:
+		if !errors.Is(err, errBoom) {
+			return "c11:error-not-propagated", fmt.Sprintf("View returned %v instead of the function's error", err)
+		}
+		// the next writing transaction grows the file beyond its current memory map
+		// (bbolt must then wait for every open reader to finish)
+		big := make([]byte, 48<<10)
+		gk := []byte("~grow")
+		err = walletdb.Update(w.db, func(tx walletdb.ReadWriteTx) error {
+			b := tx.ReadWriteBucket(w.top)
+			for i := 0; i < 8; i++ {
+				if e := b.Put(append(gk, byte(i)), big); e != nil {
+					return e
+				}
+			}
+			for i := 0; i < 8; i++ {
+				if e := b.Delete(append(gk, byte(i))); e != nil {
+					return e
+				}
+			}
+			return nil
+		})
+		if err != nil {
+			return "c11:commit-error", fmt.Sprintf("growing update after a failed read-only transaction returned %v", err)
+		}
+		stats["growing-updates-after-a-failed-read-only-transaction"]++
 	case 4:
 		if err != nil {
 			return "c11:rollback-error", err.Error()
@@ -582,14 +612,36 @@ func sequential(r *evid.Run, dir string, i int, cs int64) {
 		return
 	}
 	w.db = db
-	defer func() { w.db.Close(); os.Remove(w.path) }()
+	abandoned := false
+	defer func() {
+		if !abandoned {
+			w.db.Close()
+		}
+		os.Remove(w.path)
+	}()
 	walletdb.Update(db, func(tx walletdb.ReadWriteTx) error { _, err := tx.CreateTopLevelBucket(w.top); return err })
 	nprog := 40
 	stats := map[string]int{}
 	var all []string
 	for p := 0; p < nprog; p++ {
 		var log []string
-		key, what := w.runProg(rg, &log, stats)
+		var key, what string
+		// single-threaded: if the only goroutine using the database ends up parked on
+		// one of bbolt's own locks, an earlier transaction was never ended
+		stack, blocked, gaveUp := evid.BlockedUntil([]string{"bbolt.", "walletdb/bdb."}, func() { key, what = w.runProg(rg, &log, stats) }, r.Stopping)
+		if gaveUp {
+			abandoned = true // in flight when the run was stopped, and making no progress
+			break
+		}
+		if blocked {
+			abandoned = true
+			r.StopEarly() // every further history would park the same way
+			if len(all) > 80 {
+				all = all[len(all)-80:]
+			}
+			r.Violation("c11:database-blocked-after-an-ended-transaction", "the only goroutine using the database is parked on a lock inside the database and its stack does not change: a transaction that was ended (returned, failed or panicked) still holds it\n"+stack, "programs", cs, map[string]any{"program": p, "last_steps": append(all, log...)})
+			break
+		}
 		all = append(all, log...)
 		if key != "" {
 			if len(all) > 80 {
@@ -600,7 +652,19 @@ func sequential(r *evid.Run, dir string, i int, cs int64) {
 		}
 		r.Case(fmt.Sprint(log), len(log) > 3)
 		if rg.Intn(10) == 0 {
-			if err := w.reopen(); err != nil {
+			var err error
+			stack, blocked, gaveUp := evid.BlockedUntil([]string{"bbolt.", "walletdb/bdb."}, func() { err = w.reopen() }, r.Stopping)
+			if gaveUp {
+				abandoned = true
+				break
+			}
+			if blocked {
+				abandoned = true
+				r.StopEarly()
+				r.Violation("c11:database-blocked-after-an-ended-transaction", "Close is parked on a lock inside the database and its stack does not change: a transaction that was ended (returned, failed or panicked) still holds it\n"+stack, "programs", cs, map[string]any{"program": p, "last_steps": all})
+				break
+			}
+			if err != nil {
 				r.Violation("c11:reopen-error", err.Error(), "programs", cs, nil)
 				break
 			}
@@ -1010,6 +1074,7 @@ func main() {
 	r.Require("programs", 1000)
 	r.Require("outcome:panic", 50)
 	r.Require("outcome:readonly", 50)
+	r.Require("growing-updates-after-a-failed-read-only-transaction", 50)
 	r.Require("cursor-scans", 500)
 	r.Require("reopens", 20)
 	r.Require("concurrent-snapshots-observed", 50)
